@@ -417,6 +417,108 @@ Section SymProofs.
         rewrite Hs2 by lia. apply Hs1; lia.
     Qed.
 
+    (* ---- T5': pixel formula for every mask: the mean over the ENABLED quadrants
+            of the pixel and its mirror image(s).  Rows i < n/2 belong to the upper
+            quadrants (Q0 right, Q1 left), the others (central row included) to
+            the lower ones (Q3 right, Q2 left); columns j < m/2 to the left-hand
+            quadrants, the others (central column included) to the right-hand ones. *)
+    Definition mean2 (ua ub : bool) (a b : A) : A := divn (add (sel ua a) (sel ub b)) (b2n ua + b2n ub).
+
+    Lemma sym_px_0 u S i j : sym ax_0 u Average IM = Ok S -> i < n -> j < m ->
+      px S i j =
+        if i <? n / 2
+        then (if j <? m / 2 then mean2 (u0 u) (u1 u) (px IM i (m - 1 - j)) (px IM i j)
+              else mean2 (u0 u) (u1 u) (px IM i j) (px IM i (m - 1 - j)))
+        else (if j <? m / 2 then mean2 (u2 u) (u3 u) (px IM i j) (px IM i (m - 1 - j))
+              else mean2 (u2 u) (u3 u) (px IM i (m - 1 - j)) (px IM i j)).
+    Proof.
+      unfold symmetrize. rewrite get_0. destruct (rejects ax_0 u); [discriminate|].
+      destruct shape_IM as [-> ->]. intros HS Hi Hj; apply Ok_inj in HS; subst S. rewrite put_ax0.
+      pose proof (wf_Q01 u) as W1. pose proof (wf_Q23 u) as W2.
+      rewrite (px_put_plain zero W1 W1 W2 W2 Hi Hj).
+      pose proof (ceil2_half n) as En. pose proof (ceil2_half m) as Em. unfold mean2.
+      destruct (Nat.ltb_spec i (n / 2)), (Nat.ltb_spec j (m / 2)).
+      - rewrite px_Q01 by lia. unfold nc, mc.
+        replace (m - ceil2 m + (ceil2 m - 1 - j)) with (m - 1 - j) by lia.
+        replace (ceil2 m - 1 - (ceil2 m - 1 - j)) with j by lia. reflexivity.
+      - rewrite px_Q01 by lia. unfold nc, mc.
+        replace (m - ceil2 m + (j - m / 2)) with j by lia.
+        replace (ceil2 m - 1 - (j - m / 2)) with (m - 1 - j) by lia. reflexivity.
+      - rewrite px_Q23 by lia. unfold nc, mc.
+        replace (n - 1 - (n - 1 - i)) with i by lia.
+        replace (m - ceil2 m + (ceil2 m - 1 - j)) with (m - 1 - j) by lia.
+        replace (ceil2 m - 1 - (ceil2 m - 1 - j)) with j by lia. reflexivity.
+      - rewrite px_Q23 by lia. unfold nc, mc.
+        replace (n - 1 - (n - 1 - i)) with i by lia.
+        replace (m - ceil2 m + (j - m / 2)) with j by lia.
+        replace (ceil2 m - 1 - (j - m / 2)) with (m - 1 - j) by lia. reflexivity.
+    Qed.
+
+    Lemma sym_px_1 u S i j : sym ax_1 u Average IM = Ok S -> i < n -> j < m ->
+      px S i j =
+        if j <? m / 2
+        then (if i <? n / 2 then mean2 (u1 u) (u2 u) (px IM i j) (px IM (n - 1 - i) j)
+              else mean2 (u1 u) (u2 u) (px IM (n - 1 - i) j) (px IM i j))
+        else (if i <? n / 2 then mean2 (u0 u) (u3 u) (px IM i j) (px IM (n - 1 - i) j)
+              else mean2 (u0 u) (u3 u) (px IM (n - 1 - i) j) (px IM i j)).
+    Proof.
+      unfold symmetrize. rewrite get_1. destruct (rejects ax_1 u); [discriminate|].
+      destruct shape_IM as [-> ->]. intros HS Hi Hj; apply Ok_inj in HS; subst S. rewrite put_ax1.
+      pose proof (wf_Q03 u) as W1. pose proof (wf_Q12 u) as W2.
+      rewrite (px_put_plain zero W1 W2 W2 W1 Hi Hj).
+      pose proof (ceil2_half n) as En. pose proof (ceil2_half m) as Em. unfold mean2.
+      destruct (Nat.ltb_spec i (n / 2)), (Nat.ltb_spec j (m / 2)).
+      - rewrite px_Q12 by lia. unfold nc, mc.
+        replace (ceil2 m - 1 - (ceil2 m - 1 - j)) with j by lia. reflexivity.
+      - rewrite px_Q03 by lia. unfold nc, mc.
+        replace (m - ceil2 m + (j - m / 2)) with j by lia. reflexivity.
+      - rewrite px_Q12 by lia. unfold nc, mc.
+        replace (n - 1 - (n - 1 - i)) with i by lia.
+        replace (ceil2 m - 1 - (ceil2 m - 1 - j)) with j by lia. reflexivity.
+      - rewrite px_Q03 by lia. unfold nc, mc.
+        replace (n - 1 - (n - 1 - i)) with i by lia.
+        replace (m - ceil2 m + (j - m / 2)) with j by lia. reflexivity.
+    Qed.
+
+    (* both axes: all four mirror images, enabled ones only; the four positions
+       are (rt, cr) in Q0, (rt, cl) in Q1, (rb, cl) in Q2, (rb, cr) in Q3 with
+       rt/rb the upper/lower and cl/cr the left/right member of the mirror pair *)
+    Definition mean4 (u : mask) (a b c d : A) : A :=
+      divn (add (add (add (sel (u0 u) a) (sel (u1 u) b)) (sel (u2 u) c)) (sel (u3 u) d)) (mask_count u).
+
+    Lemma sym_px_both a u S i j : In a both_spellings -> sym a u Average IM = Ok S -> i < n -> j < m ->
+      let rt := Nat.min i (n - 1 - i) in let rb := Nat.max i (n - 1 - i) in
+      let cl := Nat.min j (m - 1 - j) in let cr := Nat.max j (m - 1 - j) in
+      px S i j = mean4 u (px IM rt cr) (px IM rt cl) (px IM rb cl) (px IM rb cr).
+    Proof.
+      intros Ha. unfold symmetrize. rewrite (get_both u Ha). destruct (rejects a u); [discriminate|].
+      destruct shape_IM as [-> ->]. intros HS Hi Hj; apply Ok_inj in HS; subst S.
+      rewrite (put_axboth _ _ _ _ Ha).
+      pose proof (wf_Qall u) as W.
+      rewrite (px_put_plain zero W W W W Hi Hj).
+      pose proof (ceil2_half n) as En. pose proof (ceil2_half m) as Em. unfold mean4. cbv zeta.
+      destruct (Nat.ltb_spec i (n / 2)), (Nat.ltb_spec j (m / 2));
+        rewrite px_Qall by lia; unfold nc, mc.
+      - replace (Nat.min i (n - 1 - i)) with i by lia. replace (Nat.max i (n - 1 - i)) with (n - 1 - i) by lia.
+        replace (Nat.min j (m - 1 - j)) with j by lia. replace (Nat.max j (m - 1 - j)) with (m - 1 - j) by lia.
+        replace (m - ceil2 m + (ceil2 m - 1 - j)) with (m - 1 - j) by lia.
+        replace (ceil2 m - 1 - (ceil2 m - 1 - j)) with j by lia. reflexivity.
+      - replace (Nat.min i (n - 1 - i)) with i by lia. replace (Nat.max i (n - 1 - i)) with (n - 1 - i) by lia.
+        replace (Nat.min j (m - 1 - j)) with (m - 1 - j) by lia. replace (Nat.max j (m - 1 - j)) with j by lia.
+        replace (m - ceil2 m + (j - m / 2)) with j by lia.
+        replace (ceil2 m - 1 - (j - m / 2)) with (m - 1 - j) by lia. reflexivity.
+      - replace (Nat.min i (n - 1 - i)) with (n - 1 - i) by lia. replace (Nat.max i (n - 1 - i)) with i by lia.
+        replace (Nat.min j (m - 1 - j)) with j by lia. replace (Nat.max j (m - 1 - j)) with (m - 1 - j) by lia.
+        replace (n - 1 - (n - 1 - i)) with i by lia.
+        replace (m - ceil2 m + (ceil2 m - 1 - j)) with (m - 1 - j) by lia.
+        replace (ceil2 m - 1 - (ceil2 m - 1 - j)) with j by lia. reflexivity.
+      - replace (Nat.min i (n - 1 - i)) with (n - 1 - i) by lia. replace (Nat.max i (n - 1 - i)) with i by lia.
+        replace (Nat.min j (m - 1 - j)) with (m - 1 - j) by lia. replace (Nat.max j (m - 1 - j)) with j by lia.
+        replace (n - 1 - (n - 1 - i)) with i by lia.
+        replace (m - ceil2 m + (j - m / 2)) with j by lia.
+        replace (ceil2 m - 1 - (j - m / 2)) with (m - 1 - j) by lia. reflexivity.
+    Qed.
+
     (* ---- T5: with all quadrants enabled the result is the mean of the image
             and its mirror image(s) --------------------------------------------- *)
     Hypothesis add_comm : forall x y, add x y = add y x.
